@@ -1,0 +1,24 @@
+//go:build verif
+
+package xdsclient
+
+// Contracts checked by /verif (contract-based deductive verification).
+// This file is comment-only; it is compiled only with -tags=verif.
+
+// ---- C38: circuit breaking request counter (sequential contract of each call) ------
+
+//@ func (*ClusterRequestsCounter).StartRequest
+//@   prop C38
+//@   nopanic
+//@   modifies c.numRequests
+//@   requires c != nil
+//@   ensures iff(result != nil, old(c.numRequests) >= max)
+//@   ensures implies(result != nil, c.numRequests == old(c.numRequests))
+//@   ensures implies(result == nil, Z(c.numRequests) == Z(old(c.numRequests)) + 1 && c.numRequests <= max)
+
+//@ func (*ClusterRequestsCounter).EndRequest
+//@   prop C38
+//@   nopanic
+//@   modifies c.numRequests
+//@   requires c != nil && c.numRequests > 0
+//@   ensures Z(c.numRequests) == Z(old(c.numRequests)) - 1
